@@ -394,6 +394,12 @@ def fmt_alloc_call(caller):
     return '[{} alloc]'.format(caller)
 
 
+def escape_string(s):
+    """The text of s between the quotes of an Objective-C string literal."""
+    return (s.replace('\\', '\\\\').replace('"', '\\"')
+            .replace('\n', '\\n').replace('\r', '\\r'))
+
+
 def fmt_default_value(field):
     if is_tag_ref(field.default):
         return '[[{} alloc] initWith{}]'.format(
@@ -408,7 +414,7 @@ def fmt_default_value(field):
             bool_str = 'NO'
         return '@{}'.format(bool_str)
     elif is_string_type(field.data_type):
-        return '@"{}"'.format(field.default)
+        return '@"{}"'.format(escape_string(field.default))
     else:
         raise TypeError(
             'Can\'t handle default value type %r' % type(field.data_type))
